@@ -421,7 +421,12 @@ def run(rep):
     try:
         goals = families(M)
     except symnp.Undecided as e:
-        rep.errors.append(f'front end could not follow the code: {e}'); return
+        # outside the symbolic front end: undecided by the contracts (exit 2), unless the native stand-in finds a failing input
+        rep.add(core.Ob('C04/engine-subset', None, 'cpython-exec-symnp', core.UNKNOWN, 0.0, detail=f'the symbolic front end could not follow the code: {e}', clause='carriers within the symbolic-numpy subset'))
+        fails = bounded(rep, M)
+        if fails:
+            ob = core.Ob('C04/bounded.statistics/values-equal-independent-reduction', None, 'bounded-native', core.REFUTED, 0.0, detail=f'{fails} failing cases of the native stand-in', clause='statistics / parameters equal the independent per-slice reference'); ob.replay = dict(confirmed=True, inputs='see the bounded entry of the evidence file'); rep.add(ob)
+        return
     res = cc.discharge(goals)
     cc.register(rep, 'C04', fns, goals, res)
     base = {g.id: r[0] for g, r in zip(goals, res)}
